@@ -1039,7 +1039,7 @@ fn mutation_family(seed: u64, quick: bool, out: &mut Vec<Fail>) -> usize {
                 Ok(tag) => { if tag.starts_with("PANIC") { out.push(Fail { family: "mutation", input: m.clone(), ptr, expected: "Ok or Err".into(), actual: tag }); } }
                 Err(_) => out.push(Fail { family: "mutation", input: m.clone(), ptr, expected: "a result within 10 s".into(), actual: "no result (hang)".into() }),
             }
-            if out.len() > 20 { return n; }
+            if out.len() > 5 { return n; }
         }
     }
     n
@@ -1047,8 +1047,12 @@ fn mutation_family(seed: u64, quick: bool, out: &mut Vec<Fail>) -> usize {
 
 fn run_family(prop: &str, seed: u64, quick: bool, out: &mut Vec<Fail>) -> usize {
     let mut n = 0;
+    // hangs and panics first: once a few inputs are known to hang there is no point in paying ten seconds each for more
+    if ["C12", "C03"].contains(&prop) { n += absurd_family(out); }
+    if prop == "C12" && out.len() >= 3 { return n; }
     if ["C14", "C12"].contains(&prop) { n += fs_family(prop, out); }
     if prop == "C12" { n += mutation_family(seed, quick, out); }
+    if prop == "C12" && out.len() >= 3 { return n; }
     if EMIT_PROPS.contains(&prop) {
         // the backend check also runs on every k-th input the other families find accepted
         EMIT_SAMPLE.with(|c| { let mut c = c.borrow_mut(); c.0 = if quick { 97 } else { 13 }; c.1 = seed as usize % 7; });
@@ -1059,7 +1063,6 @@ fn run_family(prop: &str, seed: u64, quick: bool, out: &mut Vec<Fail>) -> usize 
     if ["C08", "C02", "C15", "C17", "C12", "C20"].contains(&prop) { n += enum_family(seed, quick, prop, out); }
     if ["C05", "C16", "C17", "C10", "C12"].contains(&prop) { n += fn_family(prop, out); }
     if ["C06", "C16", "C12"].contains(&prop) { n += inherit_family(if prop == "C16" { "C06" } else { prop }, out); }
-    if ["C12", "C03"].contains(&prop) { n += absurd_family(out); }
     if ["C05", "C07", "C10", "C11", "C14", "C15", "C17", "C19", "C20", "C12"].contains(&prop) { n += misc_family(prop, out); }
     let sampled = EMIT_SAMPLE.with(|c| { let mut c = c.borrow_mut(); c.0 = 0; std::mem::take(&mut c.2) });
     for (input, ptr, x) in &sampled { emit_fail(out, prop, input.clone(), *ptr, x); }
